@@ -328,6 +328,8 @@ func checkC10(c *core.Ctx, r *core.Report) {
 		{rotateBlock, flushBlock, "flushBlock", sm.mayPred(objs(cleanDp, delDp, deleteWAL)), "datapoint-WAL discard", "the datapoint WAL may be dropped only after the block it protects is on disk"},
 		{rotateSegment, flushNames, "FlushMetricNames", sm.mayPred(objs(cleanMN, delMN)), "metric-name-WAL discard", "the metric-name WAL may be dropped only after the names file is on disk"},
 		{rotateSegment, addMeta, "AddMetricsMetaEntry", directPred(objs(deleteWAL)), "meta-entry-WAL discard", "the meta-entry WAL may be dropped only after the segment's meta entry is durable"},
+	}
+	recoverRules := []rule{
 		{recoverDp, flushBlock, "flushBlock", sm.mayPred(discard), "datapoint-WAL discard", "a WAL file replayed during recovery may be deleted only after the rebuilt block was flushed; a second crash in between loses the datapoints for good"},
 		{recoverMN, flushNames, "FlushMetricNames", sm.mayPred(discard), "metric-name-WAL discard", "a metric-name WAL replayed during recovery may be deleted only after the names were flushed"},
 	}
@@ -370,6 +372,9 @@ func checkC10(c *core.Ctx, r *core.Report) {
 			}
 			r.OK("ORDER", k, c.Pos(s.Site.Pos()), "discard is preceded by "+ru.pname+" on every path and lies on its err == nil edge")
 		}
+	}
+	for _, ru := range recoverRules {
+		checkRecoverDiscard(c, r, sm, ru.fn, ru.persist, ru.pname, ru.isB, ru.bname, ru.why, owned)
 	}
 	// rotateSegment's datapoint-WAL reset relies on the caller having rotated the block
 	for _, ci := range core.CallsIn(rotateSegment) {
@@ -581,4 +586,231 @@ func checkDecodedBufferOwners(c *core.Ctx, r *core.Report, next *ssa.Function, e
 		}
 	}
 	_ = fields
+}
+
+// checkRecoverDiscard: in a WAL recovery function the replayed files may be
+// deleted (B) only after the rebuilt data was persisted (A) — except when
+// nothing was replayed.  "Nothing was replayed" is accepted only in the form
+// of an accumulator flag: the If that skips A tests a value whose phi web is
+// initialised outside the replay loops and is only ever *set* (to one constant,
+// or by non-constant increments) inside them.  B must not be reachable from the
+// failure edge of A within the same iteration.
+func checkRecoverDiscard(c *core.Ctx, r *core.Report, sm *summaries, fn *ssa.Function, persist types.Object, pname string, isB callPred, bname, why string, owned map[ssa.CallInstruction]bool) {
+	construct := fmt.Sprintf("%s:%s<%s", shortFn(fn), pname, bname)
+	isA := sm.mustPred(objs(persist))
+	var aCalls []*ssa.Call
+	var bSites []ssa.CallInstruction
+	for _, ci := range core.CallsIn(fn) {
+		if call, ok := ci.(*ssa.Call); ok && isA(ci) {
+			aCalls = append(aCalls, call)
+		}
+		if isB(ci) {
+			bSites = append(bSites, ci)
+			owned[ci] = true
+		}
+	}
+	if len(aCalls) != 1 || len(bSites) == 0 {
+		r.Undecided("ORDER", construct, c.Pos(fn.Pos()), fmt.Sprintf("expected one %s call and at least one discard site, found %d and %d", pname, len(aCalls), len(bSites)))
+		return
+	}
+	A := aCalls[0]
+	loops := core.Loops(fn)
+	// the If that can skip A: the nearest If dominating A one of whose successors cannot reach A any more within
+	// the same iteration of A's innermost loop
+	var skipIf *ssa.If
+	var skipFrom, skipTo *ssa.BasicBlock
+	aLoop := core.InnermostLoop(loops, A.Block())
+	reachesA := func(from *ssa.BasicBlock) bool {
+		seen := map[*ssa.BasicBlock]bool{}
+		stack := []*ssa.BasicBlock{from}
+		for len(stack) > 0 {
+			x := stack[len(stack)-1]
+			stack = stack[:len(stack)-1]
+			if seen[x] {
+				continue
+			}
+			seen[x] = true
+			if x == A.Block() {
+				return true
+			}
+			for _, sx := range x.Succs {
+				if aLoop != nil && sx == aLoop.Header {
+					continue
+				}
+				stack = append(stack, sx)
+			}
+		}
+		return false
+	}
+	for b := A.Block().Idom(); b != nil && skipIf == nil; b = b.Idom() {
+		if aLoop != nil && !aLoop.Body[b] {
+			break
+		}
+		ifi, ok := core.LastIf(b)
+		if !ok {
+			continue
+		}
+		t, f := b.Succs[0], b.Succs[1]
+		rt := t == A.Block() || reachesA(t)
+		rf := f == A.Block() || reachesA(f)
+		if aLoop != nil && t == aLoop.Header {
+			rt = false
+		}
+		if aLoop != nil && f == aLoop.Header {
+			rf = false
+		}
+		switch {
+		case rt && !rf:
+			skipIf, skipFrom, skipTo = ifi, b, f
+		case rf && !rt:
+			skipIf, skipFrom, skipTo = ifi, b, t
+		}
+		if skipIf != nil && aLoop != nil && !aLoop.Body[skipTo] {
+			skipIf = nil // leaving the loop altogether is not a skip within the iteration
+		}
+	}
+	edgeOK := func(from, to *ssa.BasicBlock) bool { return true }
+	if skipIf != nil {
+		if ok, detail := accumulatorFlag(skipIf, loops); !ok {
+			r.Violation("ORDER", construct+":skip-flag-is-accumulator", c.Pos(skipIf.Pos()), "the test that skips "+pname+" ('nothing was replayed') does not read an accumulator: "+detail+" — a later WAL file can reset it, the flush is skipped and the already replayed files are deleted")
+			return
+		}
+		r.OK("ORDER", construct+":skip-flag-is-accumulator", c.Pos(skipIf.Pos()), "the only way around "+pname+" is an accumulator flag initialised outside the replay loops and only set inside them")
+		edgeOK = func(from, to *ssa.BasicBlock) bool { return !(from == skipFrom && to == skipTo) }
+	}
+	isBSite := map[ssa.Instruction]bool{}
+	for _, b := range bSites {
+		isBSite[b] = true
+	}
+	var early ssa.Instruction
+	core.WalkForwardEdges(fn, nil, func(in ssa.Instruction) bool {
+		if in == ssa.Instruction(A) {
+			return false
+		}
+		if isBSite[in] {
+			early = in
+		}
+		return true
+	}, edgeOK)
+	if early != nil {
+		r.Violation("ORDER", construct, c.Pos(early.Pos()), fmt.Sprintf("a WAL file can be deleted before %s ran — %s", pname, why))
+		return
+	}
+	// failure edge of A must not reach B within the iteration
+	errv, _ := errResultOf(A)
+	if errv == nil {
+		r.Violation("ORDER", construct+":persist-succeeded", c.Pos(A.Pos()), "the error of "+pname+" is discarded")
+		return
+	}
+	loop := core.InnermostLoop(loops, A.Block())
+	var afterFail ssa.Instruction
+	core.WalkForwardEdges(fn, A, func(in ssa.Instruction) bool {
+		if core.NilnessAt(errv, in.Block()) == core.Yes {
+			return false
+		}
+		if isBSite[in] {
+			afterFail = in
+		}
+		return true
+	}, func(from, to *ssa.BasicBlock) bool {
+		if loop != nil && to == loop.Header {
+			return false // next iteration: another WAL group
+		}
+		// do not leave through the success edge
+		if ifi, ok := core.LastIf(from); ok {
+			if bo, ok := ifi.Cond.(*ssa.BinOp); ok && (bo.X == errv || bo.Y == errv) {
+				isNilEdge := (bo.Op == token.EQL && to == from.Succs[0]) || (bo.Op == token.NEQ && to == from.Succs[1])
+				if isNilEdge {
+					return false
+				}
+			}
+		}
+		return true
+	})
+	if afterFail != nil {
+		r.Violation("ORDER", construct+":persist-succeeded", c.Pos(afterFail.Pos()), fmt.Sprintf("the WAL is discarded although %s failed — %s", pname, why))
+		return
+	}
+	r.OK("ORDER", construct, c.Pos(bSites[0].Pos()), "the replayed files are deleted only after "+pname+" ran and succeeded (or nothing was replayed)")
+}
+
+// accumulatorFlag: the condition of ifi reads a phi web whose constant leaves
+// arriving from inside loops that do not contain the If are all the same
+// constant, and that has a different constant arriving from outside those
+// loops (the initial value).
+func accumulatorFlag(ifi *ssa.If, loops []*core.Loop) (bool, string) {
+	v := ifi.Cond
+	for {
+		switch x := v.(type) {
+		case *ssa.UnOp:
+			v = x.X
+			continue
+		case *ssa.BinOp:
+			if _, ok := x.Y.(*ssa.Const); ok {
+				v = x.X
+				continue
+			}
+			if _, ok := x.X.(*ssa.Const); ok {
+				v = x.Y
+				continue
+			}
+		}
+		break
+	}
+	root, ok := v.(*ssa.Phi)
+	if !ok {
+		return false, "the condition is not a loop-carried variable"
+	}
+	inLoopsOf := func(b *ssa.BasicBlock) map[*core.Loop]bool {
+		m := map[*core.Loop]bool{}
+		for _, l := range loops {
+			if l.Body[b] {
+				m[l] = true
+			}
+		}
+		return m
+	}
+	ifLoops := inLoopsOf(ifi.Block())
+	inner := map[string]bool{}
+	outer := map[string]bool{}
+	seen := map[*ssa.Phi]bool{}
+	var walk func(p *ssa.Phi)
+	walk = func(p *ssa.Phi) {
+		if seen[p] {
+			return
+		}
+		seen[p] = true
+		for i, e := range p.Edges {
+			pred := p.Block().Preds[i]
+			switch x := e.(type) {
+			case *ssa.Phi:
+				walk(x)
+			case *ssa.Const:
+				isInner := false
+				for l := range inLoopsOf(pred) {
+					if !ifLoops[l] {
+						isInner = true
+					}
+				}
+				if isInner {
+					inner[x.Value.String()] = true
+				} else {
+					outer[x.Value.String()] = true
+				}
+			}
+		}
+	}
+	walk(root)
+	if len(outer) == 0 {
+		return false, "no initial value outside the replay loops"
+	}
+	if len(inner) > 1 {
+		return false, "it is assigned different constants inside the replay loops (reset per file)"
+	}
+	for k := range inner {
+		if outer[k] {
+			return false, "it is re-initialised inside the replay loops (reset per file)"
+		}
+	}
+	return true, ""
 }
